@@ -254,7 +254,10 @@ class _ChangeComputer:
         else:
             collector = codeanalyze.ChangeCollector(self.source)
             last_end = -1
-            for match in self.matches:
+            # the overlap test below needs the matches in source order; the
+            # finder reports the statements of an outer block before those of
+            # the blocks nested in it
+            for match in sorted(self.matches, key=lambda match: match.get_region()):
                 start, end = match.get_region()
                 if start < last_end:
                     if not self._is_expression():
